@@ -251,14 +251,15 @@ def finish(plan: Plan, results, tier, seed, t_start, checker_cmd):
             finding_instances.append(dict(obligation=ob.name, finding=ob.finding, status=st))
         if st == DISCHARGED:
             by_backend[r["backend"]] = by_backend.get(r["backend"], 0) + 1
+        sub = max(1, int((r.get("extra") or {}).get("sub_obligations") or 1))
         if ob.bounded:
             n_bounded += 1
         elif not ob.finding:
-            n_proof += 1
+            n_proof += sub
             if ob.size_bounded:
-                n_sizeb += 1
+                n_sizeb += sub
             if st == DISCHARGED:
-                n_disch += 1
+                n_disch += sub
         if st == REFUTED:
             rp = r.get("replay") or {}
             confirmed = rp.get("confirmed")
